@@ -103,6 +103,17 @@ def __getattr__(name):
                             LOG.append((_kind + "-failed", _pos, args, kwargs))
                             raise ValueError("told to fail")
                         LOG.append((_kind, _pos, args, kwargs))
-                _cache[name] = type(name, (base,), {"__init__": __init__, "pos": pos})
+                # (an element may be falsy - an empty group pool, say - if it is told so)
+                _cache[name] = type(name, (base,), {"__init__": __init__, "pos": pos, "__bool__": lambda self: not self.kwargs.get("falsy", False)})
             return _cache[name]
     raise AttributeError(name)
+
+
+class _NsMeta(type):
+    def __getattr__(cls, name):
+        return __getattr__(name)
+
+
+class Ns(metaclass=_NsMeta):
+    """a namespace class: ``__type__`` may name an object nested in a class
+    (``vp.fx_plugins.Ns.VPool3``), not only a module attribute"""
